@@ -16,7 +16,9 @@ RULE = ("pairs (A, B) of generated structures (B independent or a copy of A, inc
         "the bounding boxes are separated by a drawn gap along a drawn axis (25.001-30 A, 30-100 A, 100-999 A, "
         "1000-1500 A, up to the limit of the coordinate field with A pushed to the opposite corner) x both file "
         "orders; parts are separated by a TER record; every library ligand / ion alone as a part at 25-39 A from a "
-        "protein fragment; drawn parameter files. Non-trivial: both parts own >= 1 reported group with a "
+        "protein fragment; drawn parameter files; encounter complexes of two corpus chains whose iterative scheme does "
+        "not converge (poses stored as parameters, rebuilt from the corpus) next to corpus parts that converge after "
+        "different numbers of iterations. Non-trivial: both parts own >= 1 reported group with a "
         "determinant; distinct by hash of the union text.")
 ASSUMPTIONS = ["bounding-box gap >= 25.001 A along one axis, hence >= 25 A between nearest atoms (the statement's "
                "sufficient condition); tighter separations are not claimed"]
@@ -278,3 +280,58 @@ def run_shard(ctx):
                               "gap_A": gap / 1000.0, "order": order}
             ctx.account(c, v, info)
         ctx.loop_stage("library-molecule-as-a-part", mine, lib)
+
+    # a part whose iterative scheme never settles ("did not converge in 10 iterations"): what it reports must not
+    # depend on how long the clusters of the other part need.  The poses (two corpus chains, one turned and placed
+    # against the other) come from an offline search; each is rebuilt here and probed for the message.
+    if True:
+        import json
+        import os
+        from vlib import dock
+        root = os.path.dirname(os.path.dirname(os.path.abspath(__file__)))
+        poses = json.load(open(os.path.join(root, "witnesses", "nonconverging_poses.json")))
+
+        def corpus_part(name, keep):
+            ents = [e for e in strip_end(pdbio.parse(gen.corpus_text(name)))
+                    if isinstance(e, str) and e.startswith("TER") or isinstance(e, Atom) and e.rec == "ATOM"
+                    and e.alt in (" ", "A") and e.model == 1 and keep(e)]
+            return ensure_ter(ents)
+
+        def others(i):
+            return [("corpus 3SGB (both chains)", lambda: corpus_part("3SGB", lambda a: True)),
+                    ("corpus 1HPX chain B", lambda: corpus_part("1HPX", lambda a: a.chain == "B")),
+                    ("corpus 1FTJ-Chain-A residues < 60", lambda: corpus_part("1FTJ-Chain-A", lambda a: a.resnum < 60)),
+                    ("corpus 4DFR chain A", lambda: corpus_part("4DFR", lambda a: a.chain == "A")),
+                    ("pose %d" % ((i + 1) % len(poses)), lambda: dock.pose(poses[(i + 1) % len(poses)]))]
+
+        combos = []
+        for i in range(len(poses)):
+            picks = [i % 5, (i + 2) % 5] if quick else range(5)
+            for k in picks:
+                for order in ("AB", "BA"):
+                    combos.append((i, k, order))
+        mine = [combos[j] for j in ctx.my_slice(len(combos))]
+
+        def osc(t):
+            i, k, order = t
+            pa = dock.pose(poses[i], chains=("P", "Q"))
+            desc, build = others(i)[k]
+            pb = [e.copy() if isinstance(e, Atom) else e for e in build()]
+            seen = {}
+            for a in pdbio.atoms_of(pb):               # chain ids of their own
+                a.chain = seen.setdefault(a.chain, "WXYZ"[len(seen) % 4])
+            pb = [gen.ter_line(pb[j - 1]) if isinstance(e, str) and j and isinstance(pb[j - 1], Atom) else e
+                  for j, e in enumerate(pb)]
+            gap = 300000 + 1000 * ((7 * i + 3 * k) % 40)
+            pb = pdbio.move(pb, pdbio.ROTATIONS[0], (pdbio.bbox(pa)[1][0] + gap - pdbio.bbox(pb)[0][0], 0, 0))
+            ta, tb = pdbio.write(pa), pdbio.write(pb)
+            hits = dock.nonconverging(ta)
+            c = {"part_a": ta, "part_b": tb, "order": order, "band": "100-999"}
+            v, info = check_case(c)
+            info["nontrivial"] = bool(info.get("nontrivial")) and hits > 0
+            info["labels"] = info.get("labels", []) + ["part-A-did-not-converge" if hits else "part-A-converged"]
+            info["sample"] = {"part_a": "pose %d: %s chain %s against %s chain %s" % (
+                i, poses[i]["a"][0], poses[i]["a"][1], poses[i]["b"][0], poses[i]["b"][1]), "part_b": desc,
+                "gap_A": gap / 1000.0, "order": order, "did_not_converge_messages": hits}
+            ctx.account(c, v, info)
+        ctx.loop_stage("non-converging-part", mine, osc)
